@@ -212,7 +212,7 @@ extern "C" void h_vec_svector_ops()
 
 // ---- Vector * SVector, Vector * SSVector (set up in list order / by setup() / not set up) -----------------------------------------------
 #ifndef VD1
-#define VD1 2      // value range of the symbolic sparse operand in part (1)
+#define VD1 4      // value range of the symbolic sparse operand in part (1)
 #define VD2 1      // value range of the symbolic dense operand in part (2)
 #endif
 static void vec_dot_sparse(int mode)                // 0: SVector operand; 1..3: SSVector listed / sorted / dense
@@ -232,7 +232,8 @@ static void vec_dot_sparse(int mode)                // 0: SVector operand; 1..3:
          vp_assert(a * s == refdot(da, in.d), 2);
       }
    }
-   // (2) dense operand symbolic, sparse operand: symbolic structure, concrete values
+#ifdef DOT_PART2
+   // (2) (thorough tier) dense operand symbolic, sparse operand: symbolic structure, concrete values
    {
       V a(DIM); double da[DIM]; dense_small(a, da, VD2);
       In in; draw_struct(in, TAB_S);
@@ -246,6 +247,7 @@ static void vec_dot_sparse(int mode)                // 0: SVector operand; 1..3:
          vp_assert(a * s == refdot(da, in.d), 4);
       }
    }
+#endif
    vp_cover(1);
 }
 extern "C" void h_vec_dot_svector() { vec_dot_sparse(0); }
